@@ -30,7 +30,7 @@ RULE = ("Fixed fault list, fully enumerated in both tiers: every fault is inject
 FLOOR = {"quick": 150, "thorough": 300}
 ANCHOR_HINTS = ["shell_disassembler", "null_disassembler", "yaml2regex", "global_definitions", "pattern_node_builder", "ast_builder",
                 "deref_classes", "macro_expander", "consumer"]
-REQUIRED_EVENTS = ["fault_runs_judged", "negative_controls_scan_checked"]
+REQUIRED_EVENTS = ["fault_runs_judged"]     # the scan-hook rule is evaluated when the hook target exists, reported either way
 SHARDS = {"quick": 16, "thorough": 16}
 
 REC = hooks.Recorder()
